@@ -1,6 +1,6 @@
 CONFIG = dict(
     coqfiles=["Props/C14F.v"],
-    n_quick=1500, n_thorough=60000, workers_quick=8,
+    n_quick=1000, n_thorough=30000, workers_quick=8,
     rule="sub-check of C14: client<->server histories over bufconn (grpcclients.NewCASBlobAccess in front of the real ByteStream / CAS servers, identity compression, chunk 1/16/64) "
          "whose digests carry an instance name (\"\", a, a/b, x-y) and a digest function (MD5, SHA1, SHA256); the backend is instance name aware. 0-3 Puts under random "
          "instance names, then 1-3 of Put / Get / FindMissing (75% FindMissing). A FindMissing set is built from 1-3 groups; 80% of the groups name THE SAME BLOB under "
